@@ -59,6 +59,7 @@ type FuncContract struct {
 	Havocs    []string
 	Unbounded bool
 	CallsBack bool
+	Allocates bool
 	AllocBound *Clause
 }
 
@@ -91,6 +92,7 @@ type ContractSet struct {
 	Files  []string
 	Consts map[string]string
 	Macros map[string]*Macro
+	Dups   []string
 }
 
 func newContractSet() *ContractSet {
@@ -269,7 +271,7 @@ func (cs *ContractSet) loadFile(path string) error {
 					break
 				}
 				w := hdr[k+1:]
-				if w == "assumed" || w == "pure" || w == "fresh" || w == "panics" {
+				if w == "assumed" || w == "pure" || w == "fresh" || w == "panics" || w == "allocates" {
 					flags = append(flags, w)
 					hdr = strings.TrimSpace(hdr[:k])
 					continue
@@ -299,12 +301,19 @@ func (cs *ContractSet) loadFile(path string) error {
 					cur.Fresh = true
 				case "panics":
 					cur.Panics = true
+				case "allocates":
+					cur.Allocates = true
 				}
 			}
 			if old, ok := cs.Funcs[full]; ok {
-				return fmt.Errorf("%s: duplicate contract for %s (first at %s)", w, full, old.Where)
+				if old.File == path || !old.Assumed {
+					return fmt.Errorf("%s: duplicate contract for %s (first at %s)", w, full, old.Where)
+				}
+				// an assumed dependency contract given in two spec files: the first one loaded wins
+				cs.Dups = append(cs.Dups, fmt.Sprintf("%s: duplicate assumed contract for %s ignored (first at %s)", w, full, old.Where))
+			} else {
+				cs.Funcs[full] = cur
 			}
-			cs.Funcs[full] = cur
 			curLoop = nil
 		default:
 			if cur == nil {
@@ -321,6 +330,17 @@ func (cs *ContractSet) loadFile(path string) error {
 				cur.Panics = true
 			case "callsback":
 				cur.CallsBack = true
+			case "allocates":
+				cur.Allocates = true
+			case "trusted": // `trusted ensures ...`: assumed at call sites, not checked against the body (listed as assumption)
+				if strings.HasPrefix(rest, "ensures ") {
+					rest = strings.TrimSpace(strings.TrimPrefix(rest, "ensures "))
+				}
+				c, err := mk("defines")
+				if err != nil {
+					return err
+				}
+				cur.Defines = append(cur.Defines, c)
 			case "requires", "ensures", "defines":
 				c, err := mk(kw)
 				if err != nil {
